@@ -30,7 +30,7 @@ mod verif_c16_state {
         ok
     }
 
-    // @harness id=C16 tier=quick timeout=1500 mem=6 checks=rust
+    // @harness id=C16 tier=quick timeout=1500 mem=14 checks=rust
     // @bounds TabExpandedString "a\tb\t" created with width 8 then set to width 2: expanded() == "a  b  "; then set to width 0: "ab"
     #[kani::proof]
     #[kani::unwind(12)]
@@ -48,7 +48,7 @@ mod verif_c16_state {
         std::mem::forget(n);
     }
 
-    // @harness id=C16 tier=quick timeout=1500 mem=6 checks=rust
+    // @harness id=C16 tier=quick timeout=1500 mem=14 checks=rust
     // @bounds TabRewriter(width 3 / width 0) on "p\tq": "p   q" / "pq" (custom-key output)
     #[kani::proof]
     #[kani::unwind(12)]
@@ -74,7 +74,7 @@ mod verif_c16_state {
         ok
     }
 
-    // @harness id=C16 tier=quick timeout=1800 mem=6 checks=rust
+    // @harness id=C16 tier=quick timeout=1800 mem=14 checks=rust
     // @bounds 3 operations in SYMBOLIC order out of {set_tab_width(w in 0..=9), set_style(template with a TAB literal), set_message("a\tb"), set_prefix("\t"), finish_with_message("\tz")} on a hidden bar: afterwards message, prefix, every template literal and the style carry the current tab width
     #[kani::proof]
     #[kani::unwind(6)]
